@@ -25,6 +25,9 @@ EVENTS = {"reset", "ir", "vouch", "an_done", "lookup", "gen_end", "phase", "comp
 SHAPES = {
     "plain": ("c", "struct plain { int a; char b; short c; };\nstruct holder { struct plain p; struct plain arr[2]; };\n"),
     "floats": ("c", "struct f1 { float f; int i; };\nstruct f2 { struct f1 in; double d[3]; };\ntypedef struct f2 f2_t;\nstruct f3 { f2_t t; };\n"),
+    # wide floating types: bound as u128 where they are 16 bytes, as f64 where `long double` is 8 bytes (msvc)
+    "wide-floats": ("c", "struct w1 { long double ld; int i; };\nstruct w2 { struct w1 in; long double arr[2]; };\nstruct w3 { __float128 q; };\n"),
+    "wide-floats-msvc": ("c", "struct w1 { long double ld; int i; };\nstruct w2 { struct w1 in; long double arr[2]; };\n"),
     "ptrs": ("c", "struct p1 { int *p; };\nstruct p2 { struct p1 in; void (*cb)(int); };\n"),
     "bigarr": ("c", "struct b1 { int a[33]; };\nstruct b2 { int a[32]; };\nstruct b3 { struct b1 in; char c; };\nstruct b4 { float f[40]; };\n"),
     "nested-arrays": ("c", "struct n1 { int rows[2][40]; };\ntypedef unsigned char block_t[48];\nstruct n2 { block_t b[3]; int small[2][3]; };\n"
@@ -51,6 +54,7 @@ SHAPES = {
 }
 EXTRA_FLAGS = {
     "noderive": ["--no-copy", "nd", "--no-debug", "nd", "--no-default", "nd", "--no-hash", "nd", "--no-partialeq", "nd"],
+    "wide-floats-msvc": ["--", "--target=x86_64-pc-windows-msvc"],
     "blocked": ["--blocklist-type", "blk", "--raw-line", "#[repr(C)] #[derive(Debug, Copy, Clone)] pub struct blk { pub i: i32 }"],
 }
 OPT_FLAGS = {
